@@ -33,6 +33,8 @@ SPEC = dict(
             invariants=INV, properties=PROPS, bugs=[("visitOnEntry", INV, [])]),
     cs=[dict(family="visits", n=(80, 500), paths=(4, 6), calls=50, layouts=True,
              label="YarnTrace: random walks through jump graphs"),
+        dict(family="visits", n=(10, 80), paths=(2, 3), calls=400,
+             label="YarnTrace: long walks (hundreds of jumps, counts in the hundreds)"),
         # counts are "unaffected by anything but jumps and restores": restores between nodes of different tracking modes
         dict(family="visits", n=(60, 300), paths=(3, 5), calls=45, mode="snap",
              label="YarnTrace: jump graphs with Snapshot / RestoreAt interleaved (three runners)")],
